@@ -212,16 +212,25 @@ Lemma deflate_ext m n G G' R p a : (forall x y, (x < n)%nat -> (y < n)%nat -> G 
   deflate m G R p a = deflate m G' R p a.
 Proof. intros H Hp Ha. unfold deflate. rewrite (H p p), (H a p) by auto. reflexivity. Qed.
 
-Section QRLoop.
+Section AnyLoop.
+(* any key function and any total preorder on keys: the invariant does not depend on HOW the pivot is chosen *)
+Variable K : Type.
+Variable leb : K -> K -> bool.
+Hypothesis leb_refl : forall x, leb x x = true.
+Hypothesis leb_trans : forall x y z, leb x y = true -> leb y z = true -> leb x z = true.
+Hypothesis leb_total : forall x y, leb x y = true \/ leb y x = true.
+Variable keyf : fmat -> nat -> K.
+Variable dk : K.
 Variables m n : nat.
 Variable B : nat -> nat -> Qc.
-Notation run j := (grun Qc Qcleb qr_key n j (ginit n (gram m B))).
+Notation run j := (grun K leb keyf n j (ginit n (gram m B))).
 
 Definition st_ok (st : gstate) : Prop :=
   let '(G, (rk, cs)) := st in
   let R := rows_after m n B rk in
   (forall a b, (a < n)%nat -> (b < n)%nat -> G a b = dot m (R a) (R b)) /\
-  resid_ok m n B R rk /\ (forall c, In c (rk ++ cs) -> (c < n)%nat).
+  resid_ok m n B R rk /\ (forall c, In c (rk ++ cs) -> (c < n)%nat) /\
+  (forall a, (a < n)%nat -> G a a <= gram m B a a).
 
 Lemma replace_In i x l y : In y (replace i x l) -> y = x \/ In y l.
 Proof.
@@ -233,28 +242,29 @@ Qed.
 
 Lemma st_ok_init : st_ok (ginit n (gram m B)).
 Proof.
-  unfold st_ok, ginit. simpl. split; [|split].
+  unfold st_ok, ginit. simpl. split; [|split; [|split]].
   - intros a b Ha Hb. now rewrite memo_ok.
   - apply resid_ok_init.
   - intros c Hc. apply in_seq in Hc. lia.
+  - intros a Ha. rewrite memo_ok by auto. apply Qcle_refl.
 Qed.
 
-Lemma argmax_in_range (G : fmat) cs : cs <> [] -> (argmax_by Qc Qcleb (map (qr_key G) cs) < length cs)%nat.
+Lemma argmax_in_range (G : fmat) cs : cs <> [] -> (argmax_by K leb (map (keyf G) cs) < length cs)%nat.
 Proof.
-  intro H. destruct (argmax_by_spec Qc Qcleb Qcleb_refl Qcleb_trans Qcleb_total 0 (map (qr_key G) cs)) as (A & _).
+  intro H. destruct (argmax_by_spec K leb leb_refl leb_trans leb_total dk (map (keyf G) cs)) as (A & _).
   - destruct cs; [congruence|discriminate].
   - now rewrite map_length in A.
 Qed.
 
-Lemma st_ok_step st : st_ok st -> st_ok (gstep Qc Qcleb qr_key n st).
+Lemma st_ok_step st : st_ok st -> st_ok (gstep K leb keyf n st).
 Proof.
-  destruct st as [G [rk cs]]. intros (HG & HR & HB). unfold gstep.
-  destruct cs as [|c0 rest]; [unfold st_ok; split; [exact HG|split; [exact HR|exact HB]]|].
-  set (i := argmax_by Qc Qcleb (map (qr_key G) (c0 :: rest))).
+  destruct st as [G [rk cs]]. intros (HG & HR & HB & HD). unfold gstep.
+  destruct cs as [|c0 rest]; [unfold st_ok; split; [exact HG|split; [exact HR|split; [exact HB|exact HD]]]|].
+  set (i := argmax_by K leb (map (keyf G) (c0 :: rest))).
   assert (Hi : (i < length (c0 :: rest))%nat) by (apply argmax_in_range; discriminate).
   set (p := nth i (c0 :: rest) 0%nat).
   assert (Hp : (p < n)%nat) by (apply HB; apply in_or_app; right; apply nth_In; exact Hi).
-  unfold st_ok. rewrite rows_after_app. split; [|split].
+  unfold st_ok. rewrite rows_after_app. split; [|split; [|split]].
   - intros a b Ha Hb. rewrite memo_ok by auto.
     rewrite (schur_is_gram_of_deflated m n G (rows_after m n B rk) p HG Hp a b Ha Hb).
     rewrite (deflate_ext m n G (gram m (rows_after m n B rk)) _ p a), (deflate_ext m n G (gram m (rows_after m n B rk)) _ p b); auto.
@@ -263,10 +273,35 @@ Proof.
     simpl in Hc. destruct Hc as [<-|Hc]; auto.
     apply HB. apply in_or_app. right. destruct i as [|i']; [now right|].
     apply replace_In in Hc. destruct Hc as [->|Hc]; [now left|now right].
+  - intros a Ha. rewrite memo_ok by auto.
+    destruct (schur_diag_bounds m n G (rows_after m n B rk) p HG Hp a Ha) as [_ U].
+    eapply Qcle_trans; [exact U|apply HD; exact Ha].
 Qed.
 
 Lemma st_ok_run j : st_ok (run j).
 Proof. induction j; simpl; [apply st_ok_init|now apply st_ok_step]. Qed.
+
+(* whatever the keys are: the pick's key is maximal among the candidates (numpy's first maximum) *)
+Theorem step_key_max j :
+  let '(G, (rk, cs)) := run j in
+  cs <> [] ->
+  let p := nth (argmax_by K leb (map (keyf G) cs)) cs 0%nat in
+  In p cs /\ (forall c, In c cs -> leb (keyf G c) (keyf G p) = true).
+Proof.
+  destruct (run j) as [G [rk cs]]. cbv zeta. intros Hne.
+  destruct (argmax_by_spec K leb leb_refl leb_trans leb_total dk (map (keyf G) cs)) as (A & F & _).
+  { destruct cs; [congruence|discriminate]. }
+  rewrite map_length in A. set (i := argmax_by K leb (map (keyf G) cs)) in *.
+  split; [now apply nth_In|].
+  intros c Hc. rewrite Forall_forall in F. specialize (F (keyf G c) (in_map _ _ _ Hc)).
+  rewrite (nth_indep _ dk (keyf G 0%nat)) in F by now rewrite map_length. now rewrite map_nth in F.
+Qed.
+End AnyLoop.
+
+Section QRLoop.
+Variables m n : nat.
+Variable B : nat -> nat -> Qc.
+Notation run j := (grun Qc Qcleb qr_key n j (ginit n (gram m B))).
 
 (* C03 core: at every step the pick has the largest squared residual among the sensors not yet ranked, where the
    squared residual of c is |R c|^2 for the rows R obtained by removing from every row its components along the
@@ -278,18 +313,14 @@ Theorem greedy_step_spec j :
   let p := nth (argmax_by Qc Qcleb (map (qr_key G) cs)) cs 0%nat in
   In p cs /\ (forall c, In c cs -> nrm2 m (R c) <= nrm2 m (R p)) /\ resid_ok m n B R rk.
 Proof.
-  pose proof (st_ok_run j) as H. destruct (run j) as [G [rk cs]]. destruct H as (HG & HR & HB).
-  cbv zeta. intros Hne.
-  destruct (argmax_by_spec Qc Qcleb Qcleb_refl Qcleb_trans Qcleb_total 0 (map (qr_key G) cs)) as (A & F & _).
-  { destruct cs; [congruence|discriminate]. }
-  rewrite map_length in A. set (i := argmax_by Qc Qcleb (map (qr_key G) cs)) in *.
-  split; [now apply nth_In|]. split; auto.
-  intros c Hc. rewrite Forall_forall in F.
+  pose proof (st_ok_run Qc Qcleb Qcleb_refl Qcleb_trans Qcleb_total qr_key 0 m n B j) as H.
+  pose proof (step_key_max Qc Qcleb Qcleb_refl Qcleb_trans Qcleb_total qr_key 0 m n B j) as S.
+  destruct (run j) as [G [rk cs]]. destruct H as (HG & HR & HB & _).
+  cbv zeta. intros Hne. destruct (S Hne) as [Hin Hmax]. split; auto. split; auto.
+  intros c Hc. specialize (Hmax c Hc). apply Qcleb_iff in Hmax. unfold qr_key in Hmax.
   assert (Hcn : (c < n)%nat) by (apply HB; apply in_or_app; now right).
-  assert (Hpn : (nth i cs 0%nat < n)%nat) by (apply HB; apply in_or_app; right; now apply nth_In).
-  specialize (F (qr_key G c) (in_map _ _ _ Hc)). apply Qcleb_iff in F.
-  rewrite (nth_indep _ 0 (qr_key G 0%nat)) in F by now rewrite map_length. rewrite map_nth in F.
-  unfold qr_key in F. rewrite !HG in F by auto. exact F.
+  assert (Hpn : (nth (argmax_by Qc Qcleb (map (qr_key G) cs)) cs 0%nat < n)%nat) by (apply HB; apply in_or_app; now right).
+  rewrite !HG in Hmax by auto. exact Hmax.
 Qed.
 End QRLoop.
 
